@@ -199,6 +199,7 @@ def run(ctx):
     from sa.rules import C14pipe
     C14pipe.run(ctx, repo)
     C14pipe.rst_rule(ctx, repo)
+    C14pipe.comments_rule(ctx, repo)
     from sa.rules import memo
     memo.run_for(ctx, repo, 'C14')
     return report.finish(ctx, EXPLANATION)
